@@ -85,6 +85,7 @@ var extTable = []extSpec{
 	{"r3.PreciseVectorFromVector", "PreciseVectorFromVector", "V3 → PV"},
 	{"r3.PreciseVector.Cross", "PV_Cross", "PV → PV → PV"},
 	{"r3.PreciseVector.Vector", "PV_Vector", "PV → V3"},
+	{"r3.PreciseVector.IsZero", "PV_IsZero", "PV → Bool"},
 	{"math.Sin", "sin", "F64 → F64"},
 	{"math.Cos", "cos", "F64 → F64"},
 	{"math.Asin", "asin", "F64 → F64"},
